@@ -316,7 +316,11 @@ namespace {
       if (s.doubleEigenvalue3d) key = "C24.moduli.double_eigenvalue_3d";
       if (s.equalLarge) key = "C24.moduli.equal_large";
       if (s.cls == "tiny_gap") key = "C24.moduli.tiny_gap";
-      if (flag == fs::ABAQUS && s.setting == Handler::LAGRANGIAN) key = "C24.moduli.abaqus.lagrangian";
+      // key of its own only while that defect is listed as known: once repaired the Abaqus moduli
+      // of the LAGRANGIAN setting are asserted under the class keys like the other conversions
+      if (flag == fs::ABAQUS && s.setting == Handler::LAGRANGIAN &&
+          verif::Global::get().known_keys.count("C24.moduli.abaqus.lagrangian"))
+        key = "C24.moduli.abaqus.lagrangian";
       // DESIGN: 1e-6 relaxed by 1/gap for nearly equal stretches; much tighter otherwise
       const R rel = s.relax > 1 ? 4 * std::max(1e-9L * amp, R(1e-6L)) * s.relax : 1e-9L * amp;
       cmpK(c, k, r.D, rel * m + 100 * r.err, key, what + ", " + s.sname);
